@@ -455,7 +455,13 @@ func (r *Runner) replayObligation(prop string, o *Obligation) (*ReplayRecord, st
 		rec.Reason = "solver answered " + o.Status + " (no model)"
 		return save()
 	}
-	sess, first, err := startSession(o.Query(true))
+	sess, first, err := startSession(o.QueryWith(true, o.byteAxioms()))
+	if err != nil || strings.TrimSpace(first) != "sat" {
+		if sess != nil {
+			sess.close()
+		}
+		sess, first, err = startSession(o.Query(true))
+	}
 	if err != nil || strings.TrimSpace(first) != "sat" {
 		rec.Verdict = "no-model"
 		rec.Reason = "model query answered " + strings.TrimSpace(first)
